@@ -573,6 +573,22 @@ def _c15(payload):
         checks += 1
         for d in diff_tables(t0, t, "weather table variant [%s]" % name):
             viol.append(V("C15:differs", d, variant=name))
+    # a model object that already ran with ANOTHER weather table and is then given this one (weather_df setter, same window)
+    # must use the records of the table it holds now
+    try:
+        wp = w.copy()
+        wp["Precipitation"] = np.roll(wp["Precipitation"].values, 37) * 0.5 + 1.0
+        wp["ReferenceET"] = wp["ReferenceET"].values * 1.2
+        objs = sim.build_objects(cfg); objs["weather_df"] = wp
+        mh = sim.AquaCropModel(**objs)
+        mh.run_model(till_termination=True)
+        mh.weather_df = w.copy()
+        mh.run_model(till_termination=True)
+        checks += 1
+        for d in diff_tables(t0, tables_of(mh), "weather table variant [assigned to a model object that ran before with other weather]"):
+            viol.append(V("C15:differs", d, variant="reassigned weather_df"))
+    except Exception as e:
+        viol.append(V("C15:raises:%s" % type(e).__name__, "re-running a model after assigning a new weather table raised %s: %s" % (type(e).__name__, str(e)[:150]), variant="reassigned weather_df", exc=sim.exc_info(e)))
     # by date: the matrix row used for step i carries date start+i and that date's values
     W = m0._weather
     src = w.set_index("Date")
